@@ -33,11 +33,12 @@ class SFmt(Sym):
 
     Used for messages and for results such as 'V%02d' % n, which contracts compare
     structurally (%d of an integer is injective)."""
-    __slots__ = ('fmt', 'args')
+    __slots__ = ('fmt', 'args', '_forced')
     _pytype = str
 
     def __init__(self, fmt, args):
         self.fmt, self.args = fmt, args
+        self._forced = None
 
     def __repr__(self):
         return 'SFmt(%r,%r)' % (self.fmt, self.args)
@@ -82,6 +83,12 @@ class SFmt(Sym):
 
     # -- forcing: build the shape-typed string (forks on the number of digits of symbolic integers) ----------
     def force(self):
+        # one string object has one value: forcing it again must not re-choose at a rounding tie
+        if self._forced is None:
+            self._forced = (self._force1(),)
+        return self._forced[0]
+
+    def _force1(self):
         import re
         from . import sstr
         if self.fmt == '<fstring>':
